@@ -2,6 +2,7 @@ package gensim
 
 import (
 	"fmt"
+	"go/build/constraint"
 	"sort"
 	"strings"
 )
@@ -21,6 +22,21 @@ func complementary(tags, constraint string) bool {
 	return false
 }
 
+// sameConstraint: the emitted //go:build line carries the configured constraint — equal text,
+// or equal after the canonical formatting gofmt applies to constraint lines (it adds
+// parentheses: `a && b || c` is printed as `(a && b) || c`).
+func sameConstraint(line, want string) bool {
+	if line == want {
+		return true
+	}
+	if !strings.HasPrefix(line, "//go:build ") {
+		return false
+	}
+	a, errA := constraint.Parse(line)
+	b, errB := constraint.Parse(want)
+	return errA == nil && errB == nil && a.String() == b.String()
+}
+
 // headerViolation checks the first lines of one emitted file.
 func headerViolation(path, content, constraint string) string {
 	lines := strings.Split(content, "\n")
@@ -32,7 +48,7 @@ func headerViolation(path, content, constraint string) string {
 		return fmt.Sprintf("%s does not start with the 'Code generated ... DO NOT EDIT.' header: first line %q", path, first)
 	}
 	if constraint != "" {
-		if len(lines) < 2 || lines[1] != "//go:build "+constraint {
+		if len(lines) < 2 || !sameConstraint(lines[1], "//go:build "+constraint) {
 			second := ""
 			if len(lines) > 1 {
 				second = lines[1]
@@ -257,7 +273,17 @@ func CheckC16(c *Ctx) (*Outcome, error) {
 		spec := DrawLayout(rng, 1+rng.IntN(3), LayoutOpts{UserPkgs: true})
 		w := spec.World("c16hdr")
 		g := &GenSpec{Plan: planIdentity(), Spec: spec, Expect: "ok"}
-		switch rng.IntN(5) {
+		switch rng.IntN(10) {
+		case 5:
+			g.OutputConstraint = strp("linux && !goverter")
+		case 6:
+			g.OutputConstraint = strp("go1.18 && !goverter")
+		case 7:
+			g.BuildTags, g.OutputConstraint = strp("gen"), strp("unix && !gen")
+		case 8:
+			g.OutputConstraint = strp("(linux || darwin) && !goverter")
+		case 9:
+			g.OutputConstraint = strp("!goverter && !ignore || build_all")
 		case 0:
 			g.OutputConstraint = strp("")
 		case 1:
